@@ -19,6 +19,11 @@ CHECKS.update({
    text="Thorough tier enumerates all 2^32 pairs of 16-bit serial numbers and all 2^32 differences for 4 bases of the 32-bit helpers (exhaustive for that sub-space); components and whole associations are run at a mid-range and a wrap-adjacent base and must behave identically up to the shift.",
    note="The library is not deterministic inside one virtual instant; an end-to-end divergence is reported only if 10 runs per base agree among themselves and differ between bases.", ref="6/C16"),
 })
+CHECKS.update({
+ "C19": dict(level="exploration", technique="property-based testing (rapid): RTO manager vs RFC 6298 reference arithmetic; timer state machines vs reference schedules on a fake clock; puppet-peer wire observations of retransmission instants, retry counts, SACK instants and heartbeat round trips",
+   text="Generated RTT sequences, timer start/stop/close/expiry interleavings, never-acknowledging / late-acknowledging puppet peers and DATA arrival patterns; every expiry instant, retry count and SACK instant is compared exactly (virtual clock) with the reference schedule.",
+   note="RTOMax is generated >= 1000 ms (a maximum below the protocol minimum makes the statement unsatisfiable); a SACK is required 'at once' only when a duplicate arrived or a gap is still visible after the whole packet was processed.", ref="6/C19"),
+})
 NOT_YET = {}
 props = [json.loads(l) for l in open(os.path.join(V, "properties.jsonl"))]
 checks = []
